@@ -145,33 +145,40 @@ theorem gonzalez_core (n : ℕ) (D : ℕ → ℕ → ℚ)
 
 /-! ### the invariant of a cold plain run that feeds the core -/
 
-/-- centers are frames, `ctr_inds` and `centers` coincide, and a later center is at least the
-current radius away from every earlier one -/
-structure FarApart (D : Table) (n : Nat) (s : St) : Prop where
-  same : s.ctrInds = s.centers
-  frames : ∀ c, c ∈ s.centers → c < n
+/-- From position `m0` on (the centers added by the loop) the centers are frames, and a later one is
+at least the current radius away from every earlier one of them; `dist` is the running minimum over
+all centers (supplied ones included). -/
+structure FarApart (D : Table) (n m0 : Nat) (s : St) : Prop where
+  len : m0 ≤ s.centers.length
+  frames : ∀ (j : Nat) (hj : j < s.centers.length), m0 ≤ j → s.centers[j] < n
   rmin : RMin D s.dist s.centers
-  apart : ∀ (i j : Nat) (hij : i < j) (hj : j < s.centers.length),
+  apart : ∀ (i j : Nat) (hi : m0 ≤ i) (hij : i < j) (hj : j < s.centers.length),
     toWT (radius n s) ≤ ((D (s.centers[j]) (s.centers[i]'(by omega)) : ℚ) : WithTop ℚ)
 
-theorem FarApart_cold (D : Table) (n : Nat) : FarApart D n St.cold :=
-  ⟨rfl, fun c hc => by simp [St.cold] at hc, RMin_nil D, fun i j _ hj => by simp [St.cold] at hj⟩
+theorem FarApart_init (D : Table) (n : Nat) (init : Option (List Nat)) :
+    FarApart D n (initState D n init).centers.length (initState D n init) :=
+  ⟨le_refl _, fun j hj hm => by omega, RMin_initState D n init, fun i j hi hij hj => by omega⟩
 
-theorem FarApart_iterPlain {D : Table} {n : Nat} (hn : 0 < n) {s : St} (h : FarApart D n s) :
-    FarApart D n (iterPlain D n s) := by
-  obtain ⟨same, frames, rmin, apart⟩ := h
+theorem FarApart_iterPlain {D : Table} {n m0 : Nat} (hn : 0 < n) {s : St} (h : FarApart D n m0 s) :
+    FarApart D n m0 (iterPlain D n s) := by
+  obtain ⟨len, frames, rmin, apart⟩ := h
   have hc := argmaxE_lt hn s.dist
   have hr : toWT (radius n (iterPlain D n s)) ≤ toWT (radius n s) :=
     radius_mono hn (fun f _ => by unfold iterPlain; exact update_dist_le _ _ _ _ _)
+  have hcs : (iterPlain D n s).centers = s.centers ++ [argmaxE n s.dist] := rfl
   refine ⟨?_, ?_, RMin_iterPlain rmin, ?_⟩
-  · simp [iterPlain, same]
-  · intro c hcm
-    simp only [iterPlain, update_centers, List.mem_append, List.mem_singleton] at hcm
-    rcases hcm with hcm | hcm
-    · exact frames c hcm
-    · subst hcm; exact hc
-  · intro i j hij hj
-    have hcs : (iterPlain D n s).centers = s.centers ++ [argmaxE n s.dist] := rfl
+  · rw [hcs]; simp; omega
+  · intro j hj hm
+    simp only [hcs, List.length_append, List.length_singleton] at hj
+    by_cases hjl : j < s.centers.length
+    · have e1 : (iterPlain D n s).centers[j]'(by rw [hcs]; simp; omega) = s.centers[j] := by
+        simp only [hcs]; rw [List.getElem_append_left hjl]
+      rw [e1]; exact frames j hjl hm
+    · have hje : j = s.centers.length := by omega
+      have e1 : (iterPlain D n s).centers[j]'(by rw [hcs]; simp; omega) = argmaxE n s.dist := by
+        simp only [hcs]; rw [List.getElem_append_right (by omega)]; simp [hje]
+      rw [e1]; exact hc
+  · intro i j hi hij hj
     simp only [hcs, List.length_append, List.length_singleton] at hj
     by_cases hjl : j < s.centers.length
     · have e1 : (iterPlain D n s).centers[j]'(by rw [hcs]; simp; omega) = s.centers[j] := by
@@ -179,7 +186,7 @@ theorem FarApart_iterPlain {D : Table} {n : Nat} (hn : 0 < n) {s : St} (h : FarA
       have e2 : (iterPlain D n s).centers[i]'(by rw [hcs]; simp; omega) = s.centers[i]'(by omega) := by
         simp only [hcs]; rw [List.getElem_append_left (by omega)]
       rw [e1, e2]
-      exact le_trans hr (apart i j hij hjl)
+      exact le_trans hr (apart i j hi hij hjl)
     · have hje : j = s.centers.length := by omega
       have e1 : (iterPlain D n s).centers[j]'(by rw [hcs]; simp; omega) = argmaxE n s.dist := by
         simp only [hcs]; rw [List.getElem_append_right (by omega)]; simp [hje]
@@ -189,54 +196,58 @@ theorem FarApart_iterPlain {D : Table} {n : Nat} (hn : 0 < n) {s : St} (h : FarA
       refine le_trans hr ?_
       exact rmin.1 _ _ (List.getElem_mem _)
 
-theorem FarApart_iterN {D : Table} {n : Nat} (hn : 0 < n) (j : Nat) (sj : St)
-    (h : iterN D n false j St.cold = .ok sj) : FarApart D n sj := by
-  refine iterN_inv (FarApart D n) ?_ j _ sj (FarApart_cold D n) h
+theorem FarApart_iterN {D : Table} {n : Nat} (hn : 0 < n) (init : Option (List Nat)) (j : Nat) (sj : St)
+    (h : iterN D n false j (initState D n init) = .ok sj) :
+    FarApart D n (initState D n init).centers.length sj := by
+  refine iterN_inv (FarApart D n (initState D n init).centers.length) ?_ j _ sj
+    (FarApart_init D n init) h
   intro s s' hP hs
   rw [iter_plain] at hs
   injection hs with hs
   subst hs
   exact FarApart_iterPlain hn hP
 
-/-- Gonzalez: a state reached by the plain farthest-first rule from a cold start has radius at most
-twice that of any set `S` of at most as many centers. -/
-theorem FarApart_two_approx {D : Table} {n : Nat} (hn : 0 < n) {s : St} (h : FarApart D n s)
+/-- Gonzalez: a state reached by the plain farthest-first rule after adding `t ≥ 1` centers to `m0`
+supplied ones has radius at most twice that of any set `S` of at most `t` frames. -/
+theorem FarApart_two_approx {D : Table} {n m0 : Nat} (hn : 0 < n) {s : St} (h : FarApart D n m0 s)
     (symm : ∀ x y, x < n → y < n → D x y = D y x)
     (tri : ∀ x y z, x < n → y < n → z < n → D x z ≤ D x y + D y z)
-    (S : List ℕ) (hS : ∀ x ∈ S, x < n) (hcard : S.length ≤ s.centers.length) (R : ℚ)
-    (hR : ∀ f, f < n → ∃ x ∈ S, D f x ≤ R) (hne : s.centers ≠ []) :
+    (S : List ℕ) (hS : ∀ x ∈ S, x < n) (hcard : S.length ≤ s.centers.length - m0) (R : ℚ)
+    (hR : ∀ f, f < n → ∃ x ∈ S, D f x ≤ R) (hne : m0 < s.centers.length) :
     ∃ r : ℚ, radius n s = some r ∧ r ≤ 2 * R := by
-  obtain ⟨same, frames, rmin, apart⟩ := h
+  obtain ⟨len, frames, rmin, apart⟩ := h
   have hp := argmaxE_lt hn s.dist
   -- the radius is finite
   obtain ⟨r, hr⟩ : ∃ r : ℚ, radius n s = some r := by
     rcases rmin.2 (argmaxE n s.dist) with ⟨h1, _⟩ | ⟨c, _, h2⟩
-    · exact absurd h1 hne
+    · rw [h1] at hne; simp at hne
     · exact ⟨_, h2⟩
   refine ⟨r, hr, ?_⟩
-  set m := s.centers.length with hm
-  let p : Fin (m+1) → ℕ := fun a => if h : a.val < m then s.centers[a.val] else argmaxE n s.dist
+  set t := s.centers.length - m0 with ht
+  let p : Fin (t+1) → ℕ := fun a =>
+    if h : a.val < t then s.centers[m0 + a.val]'(by omega) else argmaxE n s.dist
   have hpn : ∀ a, p a < n := by
     intro a
     simp only [p]
     split
-    · exact frames _ (List.getElem_mem _)
+    · exact frames _ _ (by omega)
     · exact hp
   have hrad : toWT (radius n s) = ((r : ℚ) : WithTop ℚ) := by rw [hr]; rfl
-  refine gonzalez_core n D symm tri m p hpn r ?_ S hS hcard R hR
+  refine gonzalez_core n D symm tri t p hpn r ?_ S hS hcard R hR
   intro a b hba
-  have hb : b.val < m := by
+  have hb : b.val < t := by
     have := a.isLt
     have : b.val < a.val := hba
     omega
   simp only [p, dif_pos hb]
-  by_cases ha : a.val < m
+  by_cases ha : a.val < t
   · simp only [dif_pos ha]
-    have := apart b.val a.val hba ha
+    have hlt : b.val < a.val := hba
+    have := apart (m0 + b.val) (m0 + a.val) (by omega) (by omega) (by omega)
     rw [hrad] at this
     exact_mod_cast this
   · simp only [dif_neg ha]
-    have := rmin.1 (argmaxE n s.dist) (s.centers[b.val]) (List.getElem_mem _)
+    have := rmin.1 (argmaxE n s.dist) (s.centers[m0 + b.val]'(by omega)) (List.getElem_mem _)
     have h2 : toWT (s.dist (argmaxE n s.dist)) = ((r : ℚ) : WithTop ℚ) := hrad
     rw [h2] at this
     exact_mod_cast this
